@@ -643,7 +643,15 @@ func (x *Exec) applyContract(fr *Frame, ci *calleeInfo, c *ssa.CallCommon, args 
 	for _, e := range ct.Ensures {
 		x.vc.assume(reach, x.evalClause(post, e))
 	}
-	if ct.Kind != "func" && len(ct.Ensures) > 0 && fr.top {
+	hasHistory := false
+	for _, e := range ct.Ensures {
+		if e.CallSite {
+			hasHistory = true
+		}
+	}
+	// (a proved contract can still carry assumed `history` clauses: e.g. one about a ghost that is missing
+	// from `modifies` would contradict the unchanged ghost and make everything after the call vacuous)
+	if (ct.Kind != "func" || hasHistory) && len(ct.Ensures) > 0 && fr.top {
 		// an assumed (trusted / extern / interface) contract must not contradict the caller's state
 		x.vc.obls = append(x.vc.obls, &Obligation{Name: x.vc.funcKey + "/vacuity[after " + site + "]", Kind: "vacuity", Prefix: len(x.vc.lines), PrePrefix: prePrefix, Reach: reach, Goal: tFalse, Func: x.vc.funcKey, Expect: "sat", Pos: pos, Info: "the assumed contract of " + ct.Key + " is satisfiable at this call"})
 	}
